@@ -41,6 +41,9 @@ type config struct {
 	max                int
 	open               bool // inside the validity window
 	autolock, autokick bool
+	// expires: the window closes this long after the start of the execution
+	// (0 = never); the "tick" thread moves the clock past it
+	expires time.Duration
 }
 
 func configs() []config {
@@ -52,7 +55,7 @@ func configs() []config {
 		{name: "max1", desc: `{"max-clients":1,` + usersJSON + `}`, max: 1, open: true},
 		{name: "max2", desc: `{"max-clients":2,` + usersJSON + `}`, max: 2, open: true},
 		{name: "max3", desc: `{"max-clients":3,` + usersJSON + `}`, max: 3, open: true},
-		{name: "window-open", desc: `{"not-before":"` + ts(-time.Hour) + `","expires":"` + ts(time.Hour) + `",` + usersJSON + `}`, open: true},
+		{name: "window-open", desc: `{"not-before":"` + ts(-time.Hour) + `","expires":"` + ts(time.Hour) + `",` + usersJSON + `}`, open: true, expires: time.Hour},
 		{name: "not-yet-open", desc: `{"not-before":"` + ts(time.Nanosecond) + `",` + usersJSON + `}`, open: false},
 		{name: "expired", desc: `{"expires":"` + ts(-time.Nanosecond) + `",` + usersJSON + `}`, open: false},
 		{name: "autolock", desc: `{"autolock":true,` + usersJSON + `}`, open: true, autolock: true},
@@ -87,6 +90,7 @@ func (w *world) fail(sig, what string) {
 
 func newWorld(cfg config) *world {
 	glife.Fresh(cfg.desc)
+	vtime.Set(0)
 	w := &world{cfg: cfg, clients: map[string]*glife.Fake{}, errs: map[string]error{}}
 	// kicked fakes stay members until "their loop" runs (never, here): a
 	// kicked client leaving from inside Kick would make the lock sequence
@@ -117,6 +121,9 @@ func newWorld(cfg config) *world {
 		}
 		if !cfg.open {
 			w.fail("window/non-op-admitted-outside-window", fmt.Sprintf("non-operator %s was admitted outside the validity window", c.ID))
+		}
+		if cfg.expires > 0 && vtime.Now().After(vtime.Base.Add(cfg.expires)) {
+			w.fail("window/non-op-admitted-after-expiry", fmt.Sprintf("non-operator %s was admitted %v after the group's expiry instant (the admission was decided with a clock value read before the wait for the group)", c.ID, vtime.Now().Sub(vtime.Base.Add(cfg.expires))))
 		}
 		if cfg.autokick && ops == 0 {
 			w.fail("autokick/non-op-admitted-without-operator", fmt.Sprintf("non-operator %s was admitted to an autokick group with no operator present (members %v)", c.ID, members))
@@ -163,6 +170,7 @@ func menu(cfg config) []thread {
 		join("carol", "c", "carol"),
 		join("dave", "d", "dave"),
 		join("dup", "b", "carol"), // same id as the pre-joined bob
+		join("dupop", "b", "oper"), // an operator's credentials under bob's id: refused, and must leave no trace
 		join("oper", "o", "oper"),
 		leave("alice"),
 		leave("bob"),
@@ -171,6 +179,10 @@ func menu(cfg config) []thread {
 	}
 	// reload with a stricter description
 	m = append(m, thread{"reload", func(w *world) { group.Add("g", nil) }})
+	if cfg.expires > 0 {
+		// the expiry instant passes
+		m = append(m, thread{"clock-passes-expiry", func(w *world) { vtime.Advance(2 * cfg.expires) }})
+	}
 	return m
 }
 
@@ -291,10 +303,10 @@ func allPrograms() []vrt.Program {
 			}
 		}
 		// triples: two joins with one other operation, and the classic races
-		joins := []thread{m[0], m[1], m[2]}
+		joins := []thread{m[0], m[1], m[2], m[3]}
 		for i := 0; i < len(joins); i++ {
 			for j := i + 1; j < len(joins); j++ {
-				for k := 3; k < len(m); k++ {
+				for k := 4; k < len(m); k++ {
 					ps = append(ps, program(cfg, []thread{joins[i], joins[j], m[k]}))
 				}
 			}
